@@ -149,5 +149,168 @@ theorem dup_drop {s sc : Sys} {c' : Nat} (hf : ∀ y ∈ s.conns, y.id ≠ c') {
   rw [hc]
   exact filter_append_fresh hf y hy
 
+/-! ### the third operation: `claim` -/
+
+/-- a `claim` of `n` on a bound connection that has not claimed yet, as a state equation -/
+theorem step_claim_eq {s : Sys} {c : Nat} {x : Conn} {a : String} (t : Time) (id : Val) (n fresh : String)
+    (hx : s.findConn c = some x) (ha : x.app = some a) (hd : x.didClaim = false) :
+    s.step (.recv c t id (.claim (some n) fresh)) =
+      match (((({ s with out := [], snaps := [] } : Sys).send c (.ack id)).updConn c
+          (fun y => { y with didClaim := true, nameplateId := some n })).claimNameplate a n (x.side.getD "") t fresh) with
+      | (s1, .ok mb) => s1.send c (.claimed mb)
+      | (s1, .crowded) => s1.sendError c "crowded"
+      | (s1, .reclaimed) => s1.sendError c "reclaimed"
+      | (s1, .integrity) => s1.internalErr c "IntegrityError" := by
+  have hid := findConn_id hx
+  rw [step_recv]
+  unfold Sys.onMessage
+  have : ({ s with out := [], snaps := [] } : Sys).findConn c = some x := hx
+  rw [this]
+  simp only [ha]
+  unfold Sys.handleClaim
+  simp only [hd, hid]
+  rfl
+
+/-- **the re-sent `claim`.**  `s`: a state with nothing uncommitted whose database is in the state a
+    successful claim of `(a, n)` by side `σ` at `t` left (`ClaimDone`, see `claimNameplate_ok_done`);
+    `sb`: `s` plus the fresh connection `c'` bound to `(a, σ)`.  Then `claim n` on `c'` at `t`, with
+    ANY generated id `f'`, is answered `ack, commits, claimed m`; the channel database is unchanged,
+    nothing is left uncommitted, only the record of `c'` changes. -/
+theorem dup_claim {s sb : Sys} {c' : Nat} {a σ : String} (hR : DupReady s sb c' a σ) (hs : s.Synced)
+    (hf : ∀ y ∈ s.conns, y.id ≠ c') (hP : s.db.PInv) {n m : String} {t : Time}
+    (hD : s.db.ClaimDone a n σ m t) (id : Val) (f' : String) :
+    ∀ sc, sc = sb.step (.recv c' t id (.claim (some n) f')) →
+      sc.db = s.db ∧ sc.Synced ∧ sc.cfg = s.cfg ∧ (∃ y, y.id = c' ∧ sc.conns = s.conns ++ [y]) ∧
+      ∃ commits, (∀ e ∈ commits, IsCommit e) ∧
+        sc.out = .frame c' (.ack id) true :: (commits ++ [.frame c' (.claimed m) true]) := by
+  intro sc hsc
+  have hx := hR.findConn hf
+  have hSb := hR.synced hs
+  rw [step_claim_eq t id n f' hx rfl rfl] at hsc
+  have hside : (dupConn c' a σ).side.getD "" = σ := rfl
+  rw [hside] at hsc
+  generalize hX : ((({ sb with out := [], snaps := [] } : Sys).send c' (.ack id)).updConn c'
+    (fun y => { y with didClaim := true, nameplateId := some n })) = X at hsc
+  have hXdb : X.db = s.db := by rw [← hX]; exact hR.db
+  have hXdisk : X.disk = s.disk := by rw [← hX]; exact hR.disk
+  have hXcfg : X.cfg = s.cfg := by rw [← hX]; exact hR.cfg
+  have hXu : X.udb = X.udisk := by rw [← hX]; exact hR.usync
+  have hXout : X.out = [.frame c' (.ack id) true] := by
+    rw [← hX]
+    show [Event.frame c' (.ack id) sb.synced] = _
+    rw [(synced_iff sb).2 hSb]
+  have hXconns : X.conns = s.conns ++ [{ dupConn c' a σ with didClaim := true, nameplateId := some n }] := by
+    rw [← hX]
+    show sb.conns.map _ = _
+    rw [hR.conns]
+    exact map_append_fresh hf _ rfl _
+  obtain ⟨s2, e, e1, e2⟩ := claimNameplate_again (s' := X) (by rw [hXdb]; exact hP) (by rw [hXdb]; exact hD) f'
+  obtain ⟨q, _, hd⟩ := claimNameplate_spec e (by rw [hXdb]; exact hP.bounded)
+  have hsync2 : s2.Synced := ⟨hd (by rw [hXdb, hXdisk]; exact hs.1), by rw [q.udb, q.udisk]; exact hXu⟩
+  have hcx := CExt.claimNameplate (OutExt.refl (s := X)) (app := a) (name := n) (side := σ) (t := t) (fresh := f')
+  rw [e] at hcx
+  obtain ⟨commits, hout, hc⟩ := hcx
+  rw [e] at hsc
+  dsimp only at hsc hout
+  subst hsc
+  refine ⟨e1.trans hXdb, hsync2, q.cfg.trans hXcfg, ⟨_, rfl, e2.trans hXconns⟩, commits, hc, ?_⟩
+  show s2.out ++ [Event.frame c' (.claimed m) s2.synced] = _
+  rw [(synced_iff s2).2 hsync2, hout, hXout]
+  simp
+
+/-! ### the third operation: `release` -/
+
+/-- a `release` that passes validation, as a state equation -/
+theorem step_release_eq {s : Sys} {c : Nat} {x : Conn} {a : String} (t : Time) (id : Val) (nm : Option String)
+    (hx : s.findConn c = some x) (ha : x.app = some a) (hnr : rejectText x (.release nm) = none) :
+    ∃ n, Np.releaseTarget x nm = some n ∧
+      s.step (.recv c t id (.release nm)) =
+        match (((({ s with out := [], snaps := [] } : Sys).send c (.ack id)).updConn c
+            (fun y => { y with didRelease := true })).releaseNameplate a n (x.side.getD "") t) with
+        | (s1, true) => s1.send c .released
+        | (s1, false) => s1.internalErr c "IndexError" := by
+  have hid := findConn_id hx
+  simp only [rejectText, needBind, ha] at hnr
+  have hd : x.didRelease = false := by
+    cases h : x.didRelease
+    · rfl
+    · simp [h] at hnr
+  simp only [hd] at hnr
+  rw [step_recv]
+  unfold Sys.onMessage
+  have : ({ s with out := [], snaps := [] } : Sys).findConn c = some x := hx
+  rw [this]
+  simp only [ha]
+  unfold Sys.handleRelease
+  simp only [hd, hid]
+  cases nm with
+  | some n =>
+    refine ⟨n, rfl, ?_⟩
+    cases hh : x.nameplateId with
+    | none => simp; rfl
+    | some held =>
+      simp only [hh] at hnr
+      have : n = held := by
+        apply Classical.byContradiction
+        intro hne
+        simp [hne] at hnr
+      subst this
+      simp; rfl
+  | none =>
+    cases hh : x.nameplateId with
+    | none => simp [hh] at hnr
+    | some held => exact ⟨held, by simp [Np.releaseTarget, hh], by simp; rfl⟩
+
+/-- **the re-sent `release`.**  `s`: a state with nothing uncommitted whose database is the one a
+    call `release_nameplate(a, n, σ, t)` left (from a database satisfying the invariant); `sb`: `s` plus
+    the fresh connection `c'` bound to `(a, σ)`.  Then `release n` on `c'` (at any time) is answered
+    `ack, commits, released`; the channel database is unchanged, nothing is left uncommitted,
+    only the record of `c'` changes. -/
+theorem dup_release {s sb : Sys} {c' : Nat} {a σ : String} (hR : DupReady s sb c' a σ) (hs : s.Synced)
+    (hf : ∀ y ∈ s.conns, y.id ≠ c') {s0 s1 : Sys} {n : String} {t : Time} {b : Bool} (hP0 : s0.db.PInv)
+    (h0 : s0.releaseNameplate a n σ t = (s1, b)) (hdb : s.db = s1.db) (t' : Time) (id : Val) :
+    ∀ sc, sc = sb.step (.recv c' t' id (.release (some n))) →
+      sc.db = s.db ∧ sc.Synced ∧ sc.cfg = s.cfg ∧ (∃ y, y.id = c' ∧ sc.conns = s.conns ++ [y]) ∧
+      ∃ commits, (∀ e ∈ commits, IsCommit e) ∧
+        sc.out = .frame c' (.ack id) true :: (commits ++ [.frame c' .released true]) := by
+  intro sc hsc
+  have hx := hR.findConn hf
+  have hSb := hR.synced hs
+  obtain ⟨n', hn', hstep⟩ := step_release_eq t' id (some n) hx (a := a) rfl (by simp [rejectText, needBind, dupConn])
+  have : n' = n := by simp [Np.releaseTarget] at hn'; exact hn'.symm
+  subst this
+  rw [hstep] at hsc
+  have hside : (dupConn c' a σ).side.getD "" = σ := rfl
+  rw [hside] at hsc
+  generalize hX : ((({ sb with out := [], snaps := [] } : Sys).send c' (.ack id)).updConn c'
+    (fun y => { y with didRelease := true })) = X at hsc
+  have hXdb : X.db = s.db := by rw [← hX]; exact hR.db
+  have hXdisk : X.disk = s.disk := by rw [← hX]; exact hR.disk
+  have hXcfg : X.cfg = s.cfg := by rw [← hX]; exact hR.cfg
+  have hXu : X.udb = X.udisk := by rw [← hX]; exact hR.usync
+  have hXout : X.out = [.frame c' (.ack id) true] := by
+    rw [← hX]
+    show [Event.frame c' (.ack id) sb.synced] = _
+    rw [(synced_iff sb).2 hSb]
+  have hXconns : X.conns = s.conns ++ [{ dupConn c' a σ with didRelease := true }] := by
+    rw [← hX]
+    show sb.conns.map _ = _
+    rw [hR.conns]
+    exact map_append_fresh hf _ rfl _
+  obtain ⟨s2, e, e1, e2⟩ := releaseNameplate_again (s' := X) (t' := t') hP0 h0 (hXdb.trans hdb)
+  obtain ⟨q, _, hsy⟩ := releaseNameplate_spec e
+  have hsync2 : s2.Synced := hsy ⟨by rw [hXdb, hXdisk]; exact hs.1, hXu⟩
+  have hcx := CExt.releaseNameplate (OutExt.refl (s := X)) (app := n') (name := n') (side := σ) (t := t')
+  have hcx := CExt.releaseNameplate (OutExt.refl (s := X)) (app := a) (name := n') (side := σ) (t := t')
+  rw [e] at hcx
+  obtain ⟨commits, hout, hc⟩ := hcx
+  rw [e] at hsc
+  dsimp only at hsc hout
+  subst hsc
+  refine ⟨e1.trans hXdb, hsync2, q.cfg.trans hXcfg, ⟨_, rfl, e2.trans hXconns⟩, commits, hc, ?_⟩
+  show s2.out ++ [Event.frame c' .released s2.synced] = _
+  rw [(synced_iff s2).2 hsync2, hout, hXout]
+  simp
+
 end Sys
 end Wormhole
